@@ -25,6 +25,7 @@ RULE = (
     "vlib/model_fields.verdict. Non-trivial: a case in which a guard and the type rule disagree (the rule alone "
     "would accept but a guard rejects, or the rule would reject '' but the flag accepts); enumerated cases are "
     "distinct by construction."
+    "Cells ending in a line feed (not fixed) and texts ending in '.0' are part of the matrix."
 )
 ASSUMPTIONS = [
     "blank (U+0020) is always an allowed character in fixed format (padding)",
